@@ -766,3 +766,116 @@ Proof.
       symmetry. apply nth_error_None. unfold nlen in *. lia.
     + replace (off <? i) with true by (symmetry; apply N.ltb_lt; lia). reflexivity.
 Qed.
+
+(* ====================================================================================== *)
+(* 11. the commit index: queries never move it, commitTo never decreases it, maybeCommit only
+       commits an index whose entry has the leader's current term *)
+Lemma l_first_index_fields : forall l v l', l_first_index l = Ok (v, l') ->
+  l_committed l' = l_committed l /\ l_applied l' = l_applied l /\ l_u l' = l_u l /\ l_maxnext l' = l_maxnext l.
+Proof.
+  intros l v l' H. unfold l_first_index in H. destruct (u_maybe_first_index (l_u l)).
+  - injection H as <- <-. auto.
+  - destruct (err_to_panic (st_first_index (l_st l))) as [[x s]| |]; simpl in H; try discriminate.
+    injection H as <- <-. auto.
+Qed.
+Lemma l_last_index_fields : forall l v l', l_last_index l = Ok (v, l') ->
+  l_committed l' = l_committed l /\ l_applied l' = l_applied l /\ l_u l' = l_u l /\ l_maxnext l' = l_maxnext l.
+Proof.
+  intros l v l' H. unfold l_last_index in H. destruct (u_maybe_last_index (l_u l)).
+  - injection H as <- <-. auto.
+  - destruct (err_to_panic (st_last_index (l_st l))) as [[x s]| |]; simpl in H; try discriminate.
+    injection H as <- <-. auto.
+Qed.
+Lemma l_term_fields : forall l i t l', l_term l i = Ok (t, l') ->
+  l_committed l' = l_committed l /\ l_applied l' = l_applied l /\ l_u l' = l_u l /\ l_maxnext l' = l_maxnext l.
+Proof.
+  intros l i t l' H. unfold l_term in H.
+  destruct (l_first_index l) as [[fv l1]| |] eqn:E1; cbn [bind] in H; try discriminate.
+  destruct (l_first_index_fields _ _ _ E1) as (A1 & A2 & A3 & A4).
+  destruct (l_last_index l1) as [[lv l2]| |] eqn:E2; cbn [bind] in H; try discriminate.
+  destruct (l_last_index_fields _ _ _ E2) as (B1 & B2 & B3 & B4).
+  destruct ((i <? fv - 1) || (lv <? i)).
+  - injection H as <- <-. repeat split; congruence.
+  - destruct (u_maybe_term (l_u l2) i) as [[t'|]| |]; cbn [bind] in H; try discriminate.
+    + injection H as <- <-. repeat split; congruence.
+    + destruct (st_term (l_st l2) i) as [[t' s]|e|]; try discriminate.
+      * injection H as <- <-. cbn. repeat split; congruence.
+      * destruct e; discriminate.
+Qed.
+
+Theorem commit_to_monotone : forall l c l', l_commit_to l c = Ok l' ->
+  l_committed l <= l_committed l' /\ (l_committed l' = l_committed l \/ l_committed l' = c) /\
+  l_applied l' = l_applied l /\ l_u l' = l_u l.
+Proof.
+  intros l c l' H. unfold l_commit_to in H. destruct (l_committed l <? c) eqn:E.
+  - apply N.ltb_lt in E. destruct (l_last_index l) as [[lv l2]| |] eqn:E2; cbn [bind] in H; try discriminate.
+    destruct (l_last_index_fields _ _ _ E2) as (B1 & B2 & B3 & B4).
+    cbn [fst snd] in H. destruct (lv <? c); [discriminate|]. injection H as <-. cbn. repeat split; auto; try lia.
+  - injection H as <-. repeat split; auto; lia.
+Qed.
+
+Theorem maybe_commit_current_term_only : forall l mi t b l', l_maybe_commit l mi t = Ok (b, l') ->
+  (b = true -> l_committed l < mi /\ l_committed l' = mi /\
+               (term_of (l_term l mi) = Ok t \/ (term_of (l_term l mi) = Err ErrCompacted /\ t = 0))) /\
+  (b = false -> l_committed l' = l_committed l) /\
+  l_applied l' = l_applied l /\ l_u l' = l_u l.
+Proof.
+  intros l mi t b l' H. unfold l_maybe_commit in H. destruct (l_committed l <? mi) eqn:E.
+  - apply N.ltb_lt in E. unfold l_zero_term_on_err_compacted in H.
+    destruct (l_term l mi) as [[tt l1]|e|] eqn:Et.
+    + destruct (l_term_fields _ _ _ _ Et) as (A1 & A2 & A3 & A4). cbn [bind fst snd] in H.
+      destruct (tt =? t) eqn:Eq.
+      * apply N.eqb_eq in Eq. destruct (l_commit_to l1 mi) as [l2| |] eqn:Ec; cbn [bind] in H; try discriminate.
+        injection H as <- <-. destruct (commit_to_monotone _ _ _ Ec) as (C1 & C2 & C3 & C4).
+        split; [intros _; split; [exact E|split; [|left; cbn; congruence]]|split; [discriminate|split; congruence]].
+        destruct C2 as [C2|C2]; [|exact C2].
+        (* commitTo did move: committed l1 < mi *)
+        unfold l_commit_to in Ec. replace (l_committed l1 <? mi) with true in Ec by (symmetry; apply N.ltb_lt; lia).
+        destruct (l_last_index l1) as [[lv l3]| |] eqn:E3; cbn [bind] in Ec; try discriminate.
+        cbn [fst snd] in Ec. destruct (lv <? mi); [discriminate|]. injection Ec as <-. reflexivity.
+      * injection H as <- <-. split; [discriminate|]. split; [intros _; congruence|split; congruence].
+    + destruct e; try discriminate. cbn [bind fst snd] in H. destruct (0 =? t) eqn:Eq.
+      * apply N.eqb_eq in Eq. destruct (l_commit_to l mi) as [l2| |] eqn:Ec; cbn [bind] in H; try discriminate.
+        injection H as <- <-. destruct (commit_to_monotone _ _ _ Ec) as (C1 & C2 & C3 & C4).
+        split; [intros _; split; [exact E|split; [|right; split; [reflexivity|congruence]]]|split; [discriminate|split; congruence]].
+        destruct C2 as [C2|C2]; [|exact C2].
+        unfold l_commit_to in Ec. replace (l_committed l <? mi) with true in Ec by (symmetry; apply N.ltb_lt; lia).
+        destruct (l_last_index l) as [[lv l3]| |] eqn:E3; cbn [bind] in Ec; try discriminate.
+        cbn [fst snd] in Ec. destruct (lv <? mi); [discriminate|]. injection Ec as <-. reflexivity.
+      * injection H as <- <-. split; [discriminate|]. split; [reflexivity|split; reflexivity].
+    + discriminate.
+  - injection H as <- <-. split; [discriminate|]. split; [reflexivity|split; reflexivity].
+Qed.
+
+(* ====================================================================================== *)
+(* 13. restore (snapshot from the leader) and hasNextEnts *)
+Theorem restore_spec : forall l m off si st,
+  l_st l = SMem m -> wf_ms m -> ms_offset m = Ok off ->
+  let l' := l_restore l si st in
+  wf_mlog l' m off /\ l_committed l' = si /\ l_applied l' = l_applied l /\
+  mfirst l' off = si + 1 /\ mlast l' m off = si /\
+  u_ents (l_u l') = [] /\ u_snap (l_u l') = Some (si, st) /\
+  term_of (l_term l' si) = Ok st.
+Proof.
+  intros l m off si st Hs Hm Ho l'. unfold l', l_restore, u_restore.
+  assert (Hwf : wf_mlog (set_u (set_committed l si) (mkU (Some (si, st)) [] (si + 1))) m off).
+  { unfold wf_mlog. cbn. split; [exact Hs|]. split; [exact Hm|]. split; [exact Ho|]. split; [exact I|reflexivity]. }
+  split; [exact Hwf|]. cbn [set_u set_committed l_committed l_applied l_u u_ents u_snap].
+  split; [reflexivity|]. split; [reflexivity|]. split; [reflexivity|]. split; [reflexivity|].
+  split; [reflexivity|]. split; [reflexivity|].
+  unfold l_term. rewrite (l_first_index_wf _ _ _ Hwf). cbn [bind]. rewrite (l_last_index_wf _ _ _ Hwf). cbn [bind].
+  unfold mfirst, mlast. cbn [set_u set_committed l_u u_snap u_ents u_off].
+  replace ((si <? si + 1 - 1) || (si <? si)) with false by (symmetry; apply orb_false_iff; split; apply N.ltb_ge; lia).
+  unfold u_maybe_term. cbn [u_off u_snap]. replace (si <? si + 1) with true by (symmetry; apply N.ltb_lt; lia).
+  rewrite N.eqb_refl. reflexivity.
+Qed.
+
+Theorem has_next_ents_spec : forall l m off, wf_mlog l m off ->
+  l_has_next_ents l = Ok (N.max (l_applied l + 1) (mfirst l off) <=? l_committed l, l).
+Proof.
+  intros l m off Hwf. unfold l_has_next_ents. rewrite (l_first_index_wf _ _ _ Hwf). cbn [bind]. f_equal. f_equal.
+  destruct (N.max (l_applied l + 1) (mfirst l off) <? l_committed l + 1) eqn:A;
+    destruct (N.max (l_applied l + 1) (mfirst l off) <=? l_committed l) eqn:B; try reflexivity.
+  - apply N.ltb_lt in A. apply N.leb_gt in B. lia.
+  - apply N.ltb_ge in A. apply N.leb_le in B. lia.
+Qed.
